@@ -25,7 +25,7 @@ EXPLANATION = (
     'drops exactly cp_size leading columns of rows of length fft_size + cp_size. A refactor that inlines an '
     'equivalent but different provider on one side would be reported (accepted risk). Not decided: exact recovery '
     'through channels with memory <= CP, zero energy on guard/DC carriers.'
-    ' General rules also applied here (see DESIGN 10.5): validate-before-commit (no `raise` reachable after the object was already changed in a public mutator).')
+    ' General rules also applied here (see DESIGN 10.5): validate-before-commit (no `raise` reachable after the object was already changed in a public mutator). C02.h: every value TdlChannel.corrupt_data returns is built from the tap delays as well as the tap values (read-set per return path).')
 
 
 def neg_zero_slices(fn: FuncInfo):
